@@ -731,6 +731,13 @@ class Magnetization(MagicProperties):
         if val is not None:
             self.arrow.size = val
 
+    def as_dict(self, flatten=False, separator="."):
+        # the deprecated `size` is only another name for `arrow.size`. If it was listed as a
+        # property of its own, `update` would write the old size back over a new `arrow.size`.
+        dict_ = super().as_dict(flatten=flatten, separator=separator)
+        dict_.pop("size", None)
+        return dict_
+
     @property
     def color(self):
         """Color properties showing the magnetization direction (for the plotly backend).
